@@ -141,7 +141,7 @@ func init() {
 			s, c := a[0].T, App(SString, "str.from_code", a[1].T)
 			fn := e.sc.Fun("lastIndexOf", []string{SString, SString}, SInt)
 			r := App(SInt, fn, s, c)
-			if e.binders > 0 {
+			if e.sc.binders > 0 {
 				return Val{T: r, GT: intT}
 			}
 			n := App(SInt, "str.len", s)
@@ -192,7 +192,21 @@ func init() {
 			return Val{T: r, GT: errorType()}
 		},
 		"fmt.Sprintf": func(e *Exec, st *State, a []Val, x *ast.CallExpr) Val {
-			return e.freshVal("sprintf", strT)
+			r := e.freshVal("sprintf", strT)
+			// the output starts with the literal text of the format that precedes its first verb
+			if chars, ok := decodeSMTString(a[0].T.S); ok {
+				pre := ""
+				for _, c := range chars {
+					if c == '%' || c >= 0x80 {
+						break
+					}
+					pre += string(rune(c))
+				}
+				if pre != "" {
+					e.assume(st, App(SBool, "str.prefixof", StrLit(pre), r.T))
+				}
+			}
+			return r
 		},
 		"fmt.Sprint": func(e *Exec, st *State, a []Val, x *ast.CallExpr) Val {
 			return e.freshVal("sprint", strT)
@@ -228,7 +242,7 @@ func (e *Exec) permuteInPlace(st *State, name string, a []Val, x *ast.CallExpr) 
 		return Val{}
 	}
 	el := slcElem(s.T.Sort)
-	if len(s.T.S) > 60 && e.binders == 0 {
+	if len(s.T.S) > 60 && e.sc.binders == 0 {
 		// the axioms below use the old array in quantifier patterns: give it a name
 		nm := e.sc.Fresh("presort", s.T.Sort)
 		e.sc.Assert(Eq(nm, s.T))
@@ -508,7 +522,7 @@ func (e *Exec) conversion(st *State, v Val, t types.Type, pos token.Pos) Val {
 		e.sc.Assert(Eq(App(SInt, "str.len", r), SlcLen(v.T)))
 		return Val{T: r, GT: t}
 	case fs == SString && isSlcSort(ts):
-		if len(v.T.S) > 60 && e.binders == 0 {
+		if len(v.T.S) > 60 && e.sc.binders == 0 {
 			nm := e.sc.Fresh("convstr", SString) // the axiom below uses the string in a quantifier pattern
 			e.sc.Assert(Eq(nm, v.T))
 			v.T = nm
@@ -637,9 +651,11 @@ func (e *Exec) builtin(st *State, name string, x *ast.CallExpr) Val {
 		e.mapDelete(st, m, mt, e.convertTo(st, k, mt.Key()))
 		return Val{}
 	case "panic":
+		var pargs []Val
 		for _, a := range x.Args {
-			e.ev(st, a)
+			pargs = append(pargs, e.ev(st, a))
 		}
+		e.builtinSiteChecks(st, "panic", pargs, x)
 		f := e.top()
 		f.panics = append(f.panics, st.clone())
 		st.dead = true
@@ -713,7 +729,7 @@ func (e *Exec) appendSlices(st *State, a, b Val, rt types.Type) Val {
 	arr := e.sc.Fresh("appended", ArraySort(SInt, el))
 	e.lenFact(st, a.T)
 	e.lenFact(st, b.T)
-	if e.binders > 0 {
+	if e.sc.binders > 0 {
 		e.fail(token.NoPos, "append of two slices under a quantifier binder (give the callee a pure contract)")
 	}
 	e.sc.Assert(T(SBool, fmt.Sprintf("(forall ((i Int)) (! (= (select %s i) (ite (< i %s) (select %s i) (select %s (- i %s)))) :pattern ((select %s i))))",
@@ -1096,7 +1112,7 @@ func (e *Exec) callByContract(st *State, fc *FuncContract, sig *types.Signature,
 	// bind results
 	bindResults(env, sig, res)
 	for _, en := range fc.Ensures {
-		if e.binders > 0 {
+		if e.sc.binders > 0 {
 			break // under a binder or in a spec body the arguments are bound variables: no per-call facts
 		}
 		if fc.mentionsOwnGhost(en) {
@@ -1359,7 +1375,7 @@ func (e *Exec) lessOverIndices(st *State, c *Closure, n Term) (t Term, ok bool) 
 	// less(j, i) with i < j
 	st2.vars[params[0]] = Val{T: jv, GT: intT}
 	st2.vars[params[1]] = Val{T: iv, GT: intT}
-	e.binders++
+	e.sc.binders++
 	e.inContract++
 	fr := &callFrame{name: c.Name, pkg: c.Pkg, node: lit, closures: map[types.Object]*Closure{}}
 	for k, v := range e.top().closures {
@@ -1369,7 +1385,7 @@ func (e *Exec) lessOverIndices(st *State, c *Closure, n Term) (t Term, ok bool) 
 	v := e.ev(st2, ret.Results[0])
 	e.frames = e.frames[:len(e.frames)-1]
 	e.inContract--
-	e.binders--
+	e.sc.binders--
 	if v.T.Sort != SBool {
 		return Term{}, false
 	}
@@ -1419,7 +1435,7 @@ func (e *Exec) cmpOverElements(st *State, c *Closure, arr, n Term, sliceT types.
 	st2 := e.specState(st)
 	st2.vars[params[0]] = Val{T: Select(arr, iv), GT: st0.Elem()}
 	st2.vars[params[1]] = Val{T: Select(arr, jv), GT: st0.Elem()}
-	e.binders++
+	e.sc.binders++
 	e.inContract++
 	fr := &callFrame{name: c.Name, pkg: c.Pkg, node: lit, closures: map[types.Object]*Closure{}}
 	for k, v := range e.top().closures {
@@ -1429,7 +1445,7 @@ func (e *Exec) cmpOverElements(st *State, c *Closure, arr, n Term, sliceT types.
 	v := e.ev(st2, ret.Results[0])
 	e.frames = e.frames[:len(e.frames)-1]
 	e.inContract--
-	e.binders--
+	e.sc.binders--
 	if v.T.Sort != SInt {
 		return Term{}, false
 	}
